@@ -462,6 +462,7 @@ HAND_TEXTS = [b"", b" ", b"null", b" null ", b"nul", b"nulll", b"true false", b"
               b"\"\xf8\x88\x80\x80\x80\"", b"\xef\xbb\xbf1", b"\xef\xbb\xbf[]", b"[\"a\",\n \"b\"]", b"  [1,\n   2]", b"\t[1,\n\t\t2]\n", b"[1,\r\n2]\r\n", b"/**/1", b"[1,//\n2]",
               b"tru", b"True", b"NaN", b"Infinity", b"-Infinity", b"nullx", b"truex", b"1x", b"\"a\"x", b"\"a\" \"b\"", b"[\"\\ud83d\\ude00\\u00e9\\\"\"]",
               b"{\"k\": [\n  1\n]}", b"\x0c1", b"\x0b1", b"\xc2\xa01", b"1\xc2\xa0", b" \xe2\x80\x83[1,\n \xe2\x80\x83 2]"]
+HAND_TEXTS += [b"[[", b"[[[", b"[1,[", b"{\"a\":[", b"{\"a\":{\"b\":[[", b"[[]", b"[{", b"[" * 50, b"[{\"k\":" * 20, b"[[1,", b"[[1,[2,"]
 HAND_TEXTS += [b"[" * n + b"]" * n for n in (1, 2, 126, 127, 128, 129)] + [b"[{\"k\":" * n + b"1" + b"}]" * n for n in (1, 63, 64, 65)]
 
 def json_text_leg(chk, shapes, cases, hcases, text_replay):
@@ -471,14 +472,14 @@ def json_text_leg(chk, shapes, cases, hcases, text_replay):
     if text_replay is not None:
         tcases = [c for c in text_replay if c.get("kind") != "dedent"]
     else:
-        nlib = 40 if quick else 600
+        nlib = 30 if quick else 600
         for ty in ("gds", "lef"):
             k = 0
             for c, h in zip(cases, hcases):
                 if c["ty"] == ty and k < nlib:
                     tcases.append({"leg": "jsontext", "kind": "lib", "ty": ty, "v": c["v"], "val": h["val"]})
                     k += 1
-        for i in range(400 if quick else 12000):
+        for i in range(300 if quick else 12000):
             j = gen_sval(rng, rng.choice([1, 2, 3, 4, 6]))
             w = rng.choice([0] * 12 + [1, 2, 3, 5, 9])
             tcases.append({"leg": "jsontext", "kind": "any", "val": j, "wrap": w})
@@ -501,7 +502,7 @@ def json_text_leg(chk, shapes, cases, hcases, text_replay):
         # parser against parser on damaged texts: edits of printed texts (float-free and with floats), and hand-written ones
         pool = [r["text"].encode("utf8") for c, r in zip(tcases, res) if c["kind"] == "any" and "text" in r and len(r["text"]) < 1500]
         extra = [{"leg": "jsontext", "kind": "text", "hex": t.hex()} for t in HAND_TEXTS]
-        for i in range(600 if quick else 20000):
+        for i in range(500 if quick else 20000):
             if pool:
                 extra.append({"leg": "jsontext", "kind": "text", "hex": mutate_text(rng, rng.choice(pool)).hex()})
         tcases += extra
@@ -593,7 +594,7 @@ def dedent_leg(chk, text_replay):
         dcases = [c for c in text_replay if c.get("kind") == "dedent"]
     else:
         dcases = []
-        for i in range(160 if chk.tier == "quick" else 4000):
+        for i in range(120 if chk.tier == "quick" else 4000):
             base = rng.choice(DEDENT_INDENTS)
             lines = []
             for _ in range(rng.randrange(1, 7)):
